@@ -37,6 +37,11 @@ CHECKS = {
             "Random programs of point ops, rejected writes, bounded forward/reverse iterators and batch life cycles over a 0x00/0xFF-heavy alphabet on MemDB, GoLevelDB, PrefixDB(MemDB), PrefixDB(GoLevelDB), PrefixDB(PrefixDB(MemDB)); parents hold sentinels below/at/above the prefix range incl. the 0xFF carry case.",
             "Trusted: the sorted-map model. Key()/Next() are never called on invalid iterators.",
             "DESIGN.md §3 C18"),
+    "C16": ("exploration",
+            "runtime monitoring: databases written by the real legacy library (iavl v0.20.0) opened by the current one; generator record, model and reference tree as oracles after every step of follow-up histories",
+            "Each case builds a legacy GoLevelDB with the real v0.20.0 library (seeded history, with/without legacy-side deletions) and runs several follow-up histories on fresh copies with the current library: opening state vs the generator's record (availability, contents, hashes), then commits with/without writes, pruning below/at/above the boundary, rollbacks into the legacy range and reopenings, judged after every step by M and R (legacy trees decoded from raw storage by D and re-hashed by R).",
+            "Trusted: iavl v0.20.0 + cometbft-db v0.7.0 as generator/oracle, D, M, R. Two genuine defects in the legacy path are recorded in known_findings.json (non-unique (v,0) key of re-saved legacy roots).",
+            "DESIGN.md §3 C16"),
     "C07": ("exploration",
             "runtime monitoring: differential monitor indexed reads vs tree-walk reads after every step, plus raw fast-index audit with the independent decoder, every (re)open choosing index on/off and the version to load",
             "After every step: Get vs GetWithIndex, MutableTree.Iterator/Iterate vs IterateRange, GetVersioned vs GetImmutable(v).GetWithIndex on working tree (incl. uncommitted changes), latest and older versions; raw 'f' entries and label vs the model after every commit/open with the index enabled.",
